@@ -508,7 +508,11 @@ def r5_no_stale_transition_cache(ctx, chk, rule="C02.5"):
 
 
 def run(ctx, chk):
+    # observed through the batch driver: run_games()[name]['rewards'] must be this game's, this mode's value
+    from . import C12 as _C12
+    _C12.observe(ctx, chk, "C02.obs", ['rewards'])
     r5_no_stale_transition_cache(ctx, chk)
+    shared.rule_no_sweep_memo(ctx, chk, "C02.5b")
     r1_pipeline(ctx, chk)
     r2_kernels(ctx, chk)
     r3_sweep(ctx, chk)
@@ -518,6 +522,8 @@ def run(ctx, chk):
     C03.r23(ctx, chk, "C02.pre:C03.2", "C02.pre:C03.3")
     C03.r5_dispatch(ctx, chk, "C02.pre:C03.5")
     C03.r4_player_two(ctx, chk, "C02.pre:C03.4")     # clearing of cut-off states must spare everything still reachable
+    # the nodes must start from the game's own transitions (a constructor that filters or de-duplicates them solves another game)
+    shared.rule_node_keeps_transitions(ctx, chk, "C02.pre:C01.2")
     chk.require_instances("C02.1", 8)
     chk.require_instances("C02.2", 6)
     chk.require_instances("C02.3", 4)
